@@ -17,3 +17,4 @@ def check(ctx, rep):
     common.relation_builder(ctx, rep, "R12.3")
     common.slot_adjacency(ctx, rep, "R12.5")
     common.wrap_exits(ctx, rep, "R12.6", "a window slot stays taken although no job is running in it")
+    common.wrap_acquire_real(ctx, rep, "R12.7")
